@@ -595,6 +595,8 @@ def mutate(data, ctx, d):
             raise ParseFail("pos")
         b[d["pos"]] = d["value"]
         return bytes(b)
+    if d["op"] == "cert_spki":
+        return mutate_cert_spki(bytes(data), ctx, bytes.fromhex(d["spki"]))
     if d["op"] == "byte_xor":
         b = bytearray(data)
         if d["pos"] >= len(b) or not d["mask"]:
@@ -688,3 +690,126 @@ def gen_ext_descriptors(root):
 
 def zbomb(out_len, byte=0):
     return zlib.compress(bytes([byte]) * out_len, 9)
+
+
+# ---- a small DER rewriter (definite lengths only), used to give real certificates unusual public keys -------
+def der_enc(tag, content):
+    n = len(content)
+    if n < 128:
+        ln = bytes([n])
+    else:
+        b = n.to_bytes((n.bit_length() + 7) // 8, "big")
+        ln = bytes([0x80 | len(b)]) + b
+    return bytes([tag]) + ln + bytes(content)
+
+
+def der_read(data, pos=0):
+    """-> (tag, content, end) of the TLV at pos"""
+    tag = data[pos]
+    ln = data[pos + 1]
+    p = pos + 2
+    if ln & 0x80:
+        k = ln & 0x7f
+        ln = int.from_bytes(data[p:p + k], "big")
+        p += k
+    if p + ln > len(data):
+        raise ParseFail("der")
+    return tag, bytes(data[p:p + ln]), p + ln
+
+
+def der_children(content):
+    out, p = [], 0
+    while p < len(content):
+        tag, c, e = der_read(content, p)
+        out.append((tag, c))
+        p = e
+    return out
+
+
+def der_seq(*items):
+    return der_enc(0x30, b"".join(items))
+
+
+def der_oid(dotted):
+    parts = [int(x) for x in dotted.split(".")]
+    body = bytes([40 * parts[0] + parts[1]])
+    for v in parts[2:]:
+        chunk = [v & 0x7f]
+        v >>= 7
+        while v:
+            chunk.append(0x80 | (v & 0x7f))
+            v >>= 7
+        body += bytes(reversed(chunk))
+    return der_enc(0x06, body)
+
+
+def der_int(n=None, raw=None):
+    if raw is not None:
+        return der_enc(0x02, raw)
+    if n == 0:
+        return der_enc(0x02, b"\x00")
+    b = n.to_bytes((n.bit_length() + 8) // 8, "big")
+    return der_enc(0x02, b)
+
+
+def der_bits(data, unused=0):
+    return der_enc(0x03, bytes([unused]) + bytes(data))
+
+
+DER_NULL = b"\x05\x00"
+
+
+def cert_spki_index(tbs_children):
+    return 6 if tbs_children and tbs_children[0][0] == 0xA0 else 5
+
+
+def cert_get_spki(cert):
+    tag, c, _ = der_read(cert)
+    top = der_children(c)
+    tbs = der_children(top[0][1])
+    t, v = tbs[cert_spki_index(tbs)]
+    return der_enc(t, v)
+
+
+def cert_replace_spki(cert, spki):
+    """the certificate with its SubjectPublicKeyInfo replaced by `spki` (all lengths fixed up; the signature is
+    left alone: tlslite does not verify chains)"""
+    tag, c, _ = der_read(cert)
+    top = der_children(c)
+    tbs = der_children(top[0][1])
+    i = cert_spki_index(tbs)
+    parts = [der_enc(t, v) for t, v in tbs]
+    parts[i] = bytes(spki)
+    new_tbs = der_enc(top[0][0], b"".join(parts))
+    return der_enc(tag, new_tbs + b"".join(der_enc(t, v) for t, v in top[1:]))
+
+
+def _replace_first_cert(root, spki):
+    for p, n in root.walk():
+        if n.name == "cert_der" and n.children is None:
+            n.raw = cert_replace_spki(n.content(), spki)
+            return True
+    return False
+
+
+def mutate_cert_spki(data, ctx, spki):
+    """handshake Certificate or CompressedCertificate message with the first certificate's public key replaced"""
+    root = parse_handshake(data, ctx)
+    if data[0] == 25:
+        algo = root.at((1, 0, 0))
+        ulen = root.at((1, 0, 1))
+        comp = root.at((1, 0, 2))
+        if algo.value != 1:
+            raise ParseFail("compression algorithm")
+        body = zlib.decompress(comp.content())
+        rd = Rd(body)
+        inner = CERT_13(rd, dict(ctx, msg="certificate"))
+        if rd.left() or not _replace_first_cert(inner, spki):
+            raise ParseFail("inner certificate")
+        new = inner.ser()
+        comp.children, comp.raw = None, zlib.compress(new)
+        ulen.value = len(new)
+        return root.ser()
+    if not _replace_first_cert(root, spki):
+        raise ParseFail("no certificate")
+    return root.ser()
